@@ -17,7 +17,7 @@ def scratch_base():
     if _SCRATCH is None:
         import atexit
 
-        _SCRATCH = f"/dev/shm/jade-verif-{os.getpid()}"
+        _SCRATCH = f"/dev/shm/jade-verif-{os.getpid():07d}"
         os.makedirs(_SCRATCH, exist_ok=True)
         atexit.register(lambda p=_SCRATCH, pid=os.getpid(): (os.getpid() == pid) and shutil.rmtree(p, ignore_errors=True))
     return _SCRATCH
@@ -69,7 +69,11 @@ class Driver:
         w = self.w
 
         def fire():
-            if not os.path.isdir(w.output):
+            if not (os.path.exists(os.path.join(w.output, "cluster_config.json"))
+                    and os.path.exists(os.path.join(w.output, "job_status.json"))):
+                # a user runs these commands on a submission that exists
+                if w.now - w.t0 < 7 * 86400 and any(v.alive for v in w.vprocs):
+                    w.after(1.0, fire, "user")
                 return
             if u["cmd"] == "try-submit-jobs":
                 argv = ["jade", "try-submit-jobs", w.output]
@@ -134,7 +138,7 @@ def execute(scenario, prof, seed, trace=None, then_generate=False, props=(), deb
     from .scenario import materialise
 
     _RUN_N += 1
-    root = os.path.join(scratch_base(), f"run-{_RUN_N}")
+    root = os.path.join(scratch_base(), f"r{_RUN_N % 1000000:06d}")
     shutil.rmtree(root, ignore_errors=True)
     os.makedirs(root)
     ch = Chooser(f"run/{seed}", trace=trace, then_generate=then_generate)
